@@ -13,7 +13,7 @@ import gens_opt
 THEOREMS = [
     'Filters/OptFacts.v: C07_options_partial (tame o -> validate_options o = Ok _ or Err SQLParseError)',
     'C07_options_exn (for ALL dictionaries: Ok, SQLParseError, OverflowError or ValueError)',
-    'C07_options_refuted (indent_width=inf -> OverflowError), C07_options_refuted_repr (keyword_case=10**4300 -> ValueError)',
+    'C07_options_inf_rejected (indent_width=inf -> SQLParseError since the fix), C07_options_refuted_repr (keyword_case=10**4300 -> ValueError)',
     'validated_well_typed (validate_options o = Ok o\' -> Valid o\'), derived_options',
     'C07_options_first (rejected options: format_model = the same error whatever the text)',
 ]
